@@ -45,6 +45,10 @@ enum PhaseC {
 
 #[derive(Clone, Debug)]
 struct Params {
+    /// self test of the monitor: bias (ms) added to the lease the oracle assumes
+    selftest_lease_bias_ms: i64,
+    /// self test of the monitor: same-group announcements travel only through `inject`
+    selftest_inject: bool,
     parts: Vec<PSpec>,
     interval_ms: i64,
     loss: f64,
@@ -60,7 +64,7 @@ impl Params {
         self.parts[i].domain == self.parts[j].domain && self.parts[i].tag == self.parts[j].tag
     }
     fn lease_ns(&self, i: usize) -> i64 {
-        self.parts[i].lease_s.map(|s| s as i64 * SEC).unwrap_or(100 * SEC)
+        self.parts[i].lease_s.map(|s| s as i64 * SEC).unwrap_or(100 * SEC) + self.selftest_lease_bias_ms * MS
     }
     fn to_json(&self) -> Json {
         Json::obj()
@@ -139,6 +143,8 @@ fn gen_params(rng: &mut Rng) -> Params {
     let loss = *rng.pick(&[0.0, 0.3, 0.6, 0.9]);
     let loss_until_ms = if loss == 0.0 { 0 } else { *rng.pick(&[1000i64, 3000, 6000]) };
     let mut p = Params {
+        selftest_lease_bias_ms: 0,
+        selftest_inject: false,
         parts,
         interval_ms,
         loss,
@@ -393,6 +399,14 @@ async fn scenario(w: World, p: Params, obs: Arc<Mutex<NetObs>>) -> Outcome {
     let n = p.parts.len();
     let mut out = Outcome::default();
     w.net.set_policy(Some(make_policy(obs.clone(), &p, t_base)));
+    if p.selftest_inject {
+        let mut g = obs.lock().unwrap();
+        for i in 0..n {
+            for j in 0..n {
+                g.block[i][j] = i != j;
+            }
+        }
+    }
     if let PhaseC::Ignore {
         o,
         x,
@@ -464,11 +478,14 @@ async fn scenario(w: World, p: Params, obs: Arc<Mutex<NetObs>>) -> Outcome {
     for round in 0..2 {
         for i in 0..n {
             for j in 0..n {
-                if i != j && p.parts[i].domain != p.parts[j].domain {
+                if i != j && (p.parts[i].domain != p.parts[j].domain || p.selftest_inject) {
                     let b = obs.lock().unwrap().last_spdp_bytes[j].clone();
                     if let Some(b) = b {
                         w.net.inject(i, b, BASE_LATENCY);
                         out.injected += 1;
+                        if p.selftest_inject {
+                            obs.lock().unwrap().spdp_times[j][i].push(sim.now() + BASE_LATENCY);
+                        }
                     }
                 }
             }
@@ -685,7 +702,12 @@ async fn scenario(w: World, p: Params, obs: Arc<Mutex<NetObs>>) -> Outcome {
 fn run_case(shard: &Shard, rep: &mut Report, case: u64, trace: bool) {
     let cs = shard.case_seed(case);
     let mut rng = Rng::new(cs);
-    let p = gen_params(&mut rng);
+    let mut p = gen_params(&mut rng);
+    p.selftest_lease_bias_ms = shard.args.kv.get("selftest-lease-bias-ms").and_then(|s| s.parse().ok()).unwrap_or(0);
+    p.selftest_inject = shard.args.has("selftest-inject");
+    if p.selftest_inject {
+        p.phase_c = PhaseC::None;
+    }
     let mut cfg = WorldConfig::default();
     cfg.sim.seed = cs;
     cfg.sim.policy = p.policy;
